@@ -21,9 +21,18 @@ func init() {
 			{Name: "teardown-start-then-second-start", Pkg: ".", Files: files, Entry: "VerifTeardown", Mode: "all", Race: true, ThoroughOnly: true,
 				Thorough: map[string]int{"maxsteps": 2, "maxevents": 1, "ticks": 0, "slim": 1, "pin_first": 0, "pin_second": 6, "budget_s": 3000},
 				Reach:    []string{"handler returned"}, Functions: fns},
+			{Name: "teardown-start-then-same-start", Pkg: ".", Files: files, Entry: "VerifTeardown", Mode: "all", Race: true, ThoroughOnly: true,
+				Thorough: map[string]int{"maxsteps": 2, "maxevents": 1, "ticks": 0, "slim": 1, "pin_first": 0, "pin_second": 0, "budget_s": 3000},
+				Reach:    []string{"handler returned"}, Functions: fns},
 			{Name: "teardown-start-then-ignored-message", Pkg: ".", Files: files, Entry: "VerifTeardown", Mode: "all", Race: true, ThoroughOnly: true,
 				Thorough: map[string]int{"maxsteps": 2, "maxevents": 1, "ticks": 0, "slim": 1, "pin_first": 0, "noise_second": 1, "budget_s": 3000},
 				Reach:    []string{"handler returned"}, Functions: fns},
+			// two running subscriptions and every third message, under the canonical schedule: what has to be
+			// closed at the end is closed (every upstream connection, every goroutine)
+			{Name: "two-subscriptions-canonical", Pkg: ".", Files: files, Entry: "VerifTeardown", Mode: "seq",
+				Quick:    map[string]int{"maxsteps": 3, "maxevents": 1, "ticks": 0, "pin_first": 0, "pin_second": 6},
+				Thorough: map[string]int{"maxsteps": 3, "maxevents": 1, "ticks": 0, "pin_first": 0, "pin_second": 6},
+				Reach:    []string{"handler returned", "two subscriptions running"}, Functions: fns},
 			{Name: "heartbeat-vs-listener", Pkg: ".", Files: files, Entry: "VerifTeardown", Mode: "all", Race: true,
 				Quick:    map[string]int{"maxsteps": 1, "maxevents": 1, "ticks": 1, "pin_client": 0, "pin_upend": 3, "pin_events": 1},
 				Thorough: map[string]int{"maxsteps": 1, "maxevents": 1, "ticks": 1, "pin_client": 0, "slim": 1, "stitched": 1, "budget_s": 10000},
